@@ -433,6 +433,15 @@ class ValDriver(Harness):
         # (CKA_VALUE_LEN is not part of this: SoftHSM leaves it 0 on unwrapped keys - noted in DESIGN.md section 10)
         rv, d = self.p.get_attrs(self.s, g, sorted(want))
         bad = [hex(a) for a in sorted(want) if rv != 0 or d.get(a) != want[a]]
+        # length attributes (beyond the listed properties): CKA_VALUE_LEN = the length of the value, however the key was made
+        self.lennote = ""
+        if kind not in ("rsa", "des3") and kind in KINDS:
+            r2, d2 = self.p.get_attrs(self.s, g, [K.CKA_VALUE_LEN])
+            n = int.from_bytes(d2.get(K.CKA_VALUE_LEN) or b"", "little") if r2 == 0 else -1
+            if n != KINDS[kind][1]:
+                self.lennote = "CKA_VALUE_LEN of a %d-byte secret key made by %s is %s" % (
+                    KINDS[kind][1], {"imp": "C_CreateObject", "gen": "C_GenerateKey", "unwrap": "C_UnwrapKey",
+                                     "derive": "C_DeriveKey"}.get(how, how), n if r2 == 0 else rvname(r2))
         return how != "?" and not bad
 
     def MValue(self, k):
@@ -441,7 +450,11 @@ class ValDriver(Harness):
             val = self.rsa_value(kk["h"][1])
         else:
             val, kcv = self.read(kk["h"], kk["kind"])
-        return dict(e="Value", k=k, rv="OK" if val is not None else "ERR", v=h(val), attrsok=self.history_ok(k))
+        ok = self.history_ok(k)
+        ev = dict(e="Value", k=k, rv="OK" if val is not None else "ERR", v=h(val), attrsok=ok)
+        if getattr(self, "lennote", ""):
+            ev["note"] = self.lennote
+        return ev
 
     def MValueR(self, k):
         """C_Finalize / C_Initialize, every key found again by its CKA_ID, then as MValue"""
